@@ -18,7 +18,7 @@
 #define MAXX 8
 #define MAXO 8
 #define MAXOPS 96
-#define MAXEXT 8
+#define MAXEXT 16
 #define MAXFLAG 64
 #define MAXKEY 48
 
